@@ -224,3 +224,53 @@ func mpNextHopStaysInMPPath(c *core.Ctx) {
 		}
 	}
 }
+
+// decodedListsDeliveredAsDecoded: the withdrawn-routes and NLRI lists of a BGPUpdate are what decodeNLRIs returned for
+// the respective field — nothing in the packet package filters, merges or re-links them afterwards.  The decoder knows
+// prefixes, the session layer knows (prefix, path identifier): a "prefix in both fields counts as not withdrawn"
+// clean-up by prefix alone drops the withdrawal of another path of the same prefix on an add-path session.
+func decodedListsDeliveredAsDecoded(c *core.Ctx) {
+	const rule = "decoded-lists-delivered-as-decoded"
+	p := c.P
+	dec := p.Func(pktPkg + ".decodeNLRIs")
+	if dec == nil {
+		c.Check(false, rule, "decodeNLRIs", 0, "anchor not found")
+		return
+	}
+	n := 0
+	for _, fname := range []string{"WithdrawnRoutes", "NLRI"} {
+		fv := p.Field(pktPkg, "BGPUpdate", fname)
+		if fv == nil {
+			c.Check(false, rule, "BGPUpdate."+fname, 0, "field not found")
+			continue
+		}
+		for _, f := range p.FuncsIn(pktPkg) {
+			if f.Decl.Body == nil || isTestFn(p, f) {
+				continue
+			}
+			ast.Inspect(f.Decl.Body, func(nd ast.Node) bool {
+				as, ok := nd.(*ast.AssignStmt)
+				if !ok {
+					return true
+				}
+				for _, l := range as.Lhs {
+					if core.FieldOf(f.Pkg, l) != fv {
+						continue
+					}
+					n++
+					c.Analysed(f)
+					okSrc := false
+					if len(as.Rhs) == 1 {
+						if call, isCall := core.Unparen(as.Rhs[0]).(*ast.CallExpr); isCall && core.Callee(f.Pkg, call) == dec.Obj {
+							okSrc = true
+						}
+					}
+					c.Check(okSrc, rule, fmt.Sprintf("%s assigns BGPUpdate.%s from decodeNLRIs", f.Name(), fname), as.Pos(),
+						"the "+fname+" list of a decoded UPDATE is rewritten after decoding: entries are dropped or re-linked by a criterion the decoder has (the prefix) instead of the one the session needs (prefix and path identifier), so a withdrawal or announcement for one path of a prefix silently disappears")
+				}
+				return true
+			})
+		}
+	}
+	c.Check(n >= 2, rule, "assignments of the UPDATE's NLRI lists found", 0, fmt.Sprintf("found %d, expected the two in decodeUpdateMsg", n))
+}
